@@ -45,6 +45,9 @@ pub fn gen(ctx: &mut Ctx) -> Vec<String> {
 }
 
 pub fn exec(req: &str) -> String {
-    match split_req(req) { Some((_, cfg, edb, rules)) => run_engine(&cfg, &edb, &rules), None => "bad-request".into() }
+    match split_req(req) {
+        Some((op, cfg, edb, rules)) => if op == "c01.run" { run_engine_all(&cfg, &edb, &rules) } else { run_engine(&cfg, &edb, &rules) },
+        None => "bad-request".into(),
+    }
 }
 pub const TGEN: Option<fn() -> String> = None;
